@@ -7,13 +7,20 @@ import Gama.Lemmas.Cache
 namespace Gama.C04
 open Gama Gama.MTF
 
-/-- indices of queries are 1-based; the ordering maps them to 1-based positions -/
-def EnvInput.Pos (inp : EnvInput) : Prop := ∀ i, 1 ≤ i → 1 ≤ inp.invp i
+/-- the ordering maps the unknowns `1..n` to 1-based positions.  Bounded by `inp.n` (round 4): an ordering read
+    from an array of length `n` (the driver's `Info.toInput`, `invp i = getD (i-1) 0`) satisfies it, the former
+    unbounded form did not -/
+def EnvInput.Pos (inp : EnvInput) : Prop := ∀ i, 1 ≤ i → i ≤ inp.n → 1 ≤ inp.invp i
 
-def Op.Valid : Op → Prop
-  | .qxx i j => 1 ≤ i ∧ 1 ≤ j
-  | .q0xx i j => 1 ≤ i ∧ 1 ≤ j
+/-- indices of the cofactor queries are unknowns of the current system: `1 ≤ i ≤ n` (the C++ indexes
+    `ordering.invp` with them unchecked) -/
+def Op.Valid (n : Nat) : Op → Prop
+  | .qxx i j => (1 ≤ i ∧ i ≤ n) ∧ (1 ≤ j ∧ j ≤ n)
+  | .q0xx i j => (1 ≤ i ∧ i ≤ n) ∧ (1 ≤ j ∧ j ≤ n)
   | _ => True
+
+instance (n : Nat) (o : Op) : Decidable (o.Valid n) := by
+  cases o <;> simp only [Op.Valid] <;> infer_instance
 
 structure Inv (inp : EnvInput) (s : EnvState) : Prop where
   wf : s.mtf.WF
@@ -343,13 +350,13 @@ theorem inv_ensureX0 {inp : EnvInput} {s : EnvState} (h : Inv inp s) :
   · exact ⟨h, h.x0 (by omega), rfl⟩
 
 theorem q0xx_spec {inp : EnvInput} {s : EnvState} (h : Inv inp s) (hp : inp.Pos) {i j : Nat}
-    (hi : 1 ≤ i) (hj : 1 ≤ j) :
+    (hi : 1 ≤ i ∧ i ≤ inp.n) (hj : 1 ≤ j ∧ j ≤ inp.n) :
     Inv inp (q0xx inp s i j).1 ∧ (q0xx inp s i j).2 = q0spec inp i j
     ∧ eff inp (q0xx inp s i j).1.minx = eff inp s.minx := by
   have h1 := inv_ensureQ0 h
   have hf := ensureQ0_frame h
-  have hii := hp i hi
-  have hjj := hp j hj
+  have hii := hp i hi.1 hi.2
+  have hjj := hp j hj.1 hj.2
   unfold q0xx q0spec
   simp only [hf.2.2.2.2.2.2.2, Bool.not_true, Bool.false_eq_true, if_false]
   by_cases he : inp.inEnv (inp.invp i) (inp.invp j) = true
@@ -466,7 +473,7 @@ theorem qbb_full_spec {inp : EnvInput} {p : EnvState} (h1 : Inv inp p) :
     exact ⟨h1, h1.tq hq', trivial⟩
 
 /-- one step keeps the invariant and answers according to the history-free specification -/
-theorem step_spec {inp : EnvInput} {s : EnvState} (h : Inv inp s) (hp : inp.Pos) (op : Op) (hv : op.Valid) :
+theorem step_spec {inp : EnvInput} {s : EnvState} (h : Inv inp s) (hp : inp.Pos) (op : Op) (hv : op.Valid inp.n) :
     Inv inp (step inp s op).1 ∧ (step inp s op).2 = spec inp (eff inp s.minx) op := by
   cases op with
   | unknowns =>
@@ -554,7 +561,7 @@ theorem step_spec {inp : EnvInput} {s : EnvState} (h : Inv inp s) (hp : inp.Pos)
           · exact hr
           · rw [hf.2.2.1] at hnt; exact absurd ⟨hn, by simpa using hr⟩ hnt
         have hxr := (hx.2.2.2 h0).1
-        have hq := qxx_sing_spec hs.1 hv.1 hv.2 hix h0
+        have hq := qxx_sing_spec hs.1 hv.1.1 hv.2.1 hix h0
         simp only [htf, Bool.false_eq_true, if_false, hx.1, Bool.not_true, hxr, Option.getD_some]
         refine ⟨hq.1, ?_⟩
         rw [hq.2.1, hq.2.2.1, heff]
@@ -576,7 +583,7 @@ theorem step_spec {inp : EnvInput} {s : EnvState} (h : Inv inp s) (hp : inp.Pos)
 
 
 theorem run_inv {inp : EnvInput} (hp : inp.Pos) {s : EnvState} (h : Inv inp s) {ops : List Op}
-    (hops : ∀ o ∈ ops, o.Valid) : Inv inp (run inp s ops) := by
+    (hops : ∀ o ∈ ops, o.Valid inp.n) : Inv inp (run inp s ops) := by
   induction ops generalizing s with
   | nil => exact h
   | cons o ops ih =>
@@ -584,7 +591,7 @@ theorem run_inv {inp : EnvInput} (hp : inp.Pos) {s : EnvState} (h : Inv inp s) {
       (fun o' ho' => hops o' (List.mem_cons_of_mem _ ho'))
 
 theorem step_eq_fresh {inp : EnvInput} {s : EnvState} (h : Inv inp s) (hp : inp.Pos) (op : Op)
-    (hv : op.Valid) : (step inp s op).2 = fresh inp s.minx op := by
+    (hv : op.Valid inp.n) : (step inp s op).2 = fresh inp s.minx op := by
   rw [(step_spec h hp op hv).2]
   unfold fresh
   rw [(step_spec (inv_init inp s.minx) hp op hv).2]
@@ -599,7 +606,7 @@ def Op.IsQuery : Op → Prop
 
 /-- a query never changes the effective regularisation list -/
 theorem step_query_eff {inp : EnvInput} {s : EnvState} (h : Inv inp s) (hp : inp.Pos) (q : Op)
-    (hv : q.Valid) (hq : q.IsQuery) : eff inp (step inp s q).1.minx = eff inp s.minx := by
+    (hv : q.Valid inp.n) (hq : q.IsQuery) : eff inp (step inp s q).1.minx = eff inp s.minx := by
   cases q with
   | unknowns => exact (solveX_spec (inp := inp) h).2.2.2.1 ▸ (by
       simp only [step]; split <;> (try split) <;> rfl)
@@ -630,7 +637,7 @@ theorem step_query_eff {inp : EnvInput} {s : EnvState} (h : Inv inp s) (hp : inp
         have hix := hs.2.2.2.2.2.2 htf
         have hx := hs.1.xok hix
         have hxr := (hx.2.2.2 h0).1
-        have hq := qxx_sing_spec hs.1 hv.1 hv.2 hix h0
+        have hq := qxx_sing_spec hs.1 hv.1.1 hv.2.1 hix h0
         simp only [htf, Bool.false_eq_true, if_false, hx.1, Bool.not_true, hxr, Option.getD_some]
         rw [hq.2.2.2, heff]
   | qbb i j =>
@@ -647,7 +654,7 @@ theorem step_query_eff {inp : EnvInput} {s : EnvState} (h : Inv inp s) (hp : inp
   | reset => exact absurd hq (by simp [Op.IsQuery])
 
 theorem step_twice {inp : EnvInput} {s : EnvState} (h : Inv inp s) (hp : inp.Pos) (q : Op)
-    (hv : q.Valid) (hq : q.IsQuery) :
+    (hv : q.Valid inp.n) (hq : q.IsQuery) :
     (step inp (step inp s q).1 q).2 = (step inp s q).2 := by
   have h1 := step_spec h hp q hv
   rw [(step_spec h1.1 hp q hv).2, h1.2, step_query_eff h hp q hv hq]
@@ -662,7 +669,7 @@ theorem eff_cfg {inp : EnvInput} {s : EnvState} (hmd : MD inp s) : eff inp (cfg 
   · simp [hd]
 
 theorem step_after_reset {inp : EnvInput} {s : EnvState} (h : Inv inp s) (hmd : MD inp s) (hp : inp.Pos) (q : Op)
-    (hv : q.Valid) : (step inp (step inp s .reset).1 q).2 = (step inp s q).2 := by
+    (hv : q.Valid inp.n) : (step inp (step inp s .reset).1 q).2 = (step inp s q).2 := by
   have h1 := step_spec h hp .reset trivial
   rw [(step_spec h1.1 hp q hv).2, (step_spec h hp q hv).2]
   have : eff inp (step inp s .reset).1.minx = eff inp s.minx := by
